@@ -28,6 +28,7 @@ def _safe(fn, arg):
         return f"{type(err).__name__}"
 
 
+@core.guard
 def judge(case):
     from pyrtcm import RTCM_DATA_FIELDS, att2idx, att2name, datadesc  # pylint: disable=import-outside-toplevel
 
